@@ -1436,6 +1436,12 @@ func (g *gen) behC03() M {
 		}
 		delete(run.AsM(sv), "nowait")
 	}
+	if g.chance(0.35) {
+		// a message over the size limit, of a known or an unknown type, with the conversation going on behind it:
+		// skipped in full, wherever the segments happen to end
+		steps = append(steps, send(M{"t": "Big", "ty": g.pick("Q", "P", "B", "U", "U", "d", "S"), "over": 1 + g.rng.Intn(300)}),
+			send(M{"t": "S"}), send(M{"t": "Q", "q": g.trivialQ()}))
+	}
 	if g.chance(0.3) {
 		steps = append(steps, send(M{"t": "Bad", "ty": g.pick("Q", "P", "B", "D", "E"), "cls": g.pick("nonul", "short", "count")}),
 			send(M{"t": "Q", "q": g.trivialQ()}), send(M{"t": "S"}))
